@@ -48,6 +48,8 @@ MUTS = {
  "cgi-remote-port": ("src/http_cgi.c", "li_utostrn(buf, sizeof(buf), sock_addr_get_port(r->dst_addr)));", "li_utostrn(buf, sizeof(buf), 1 + sock_addr_get_port(r->dst_addr)));", ["C09"]),
  "rewrite-once-repeats": ("src/mod_rewrite.c", "		if (*hctx & REWRITE_STATE_FINISHED) return HANDLER_GO_ON;", "		if (0 && (*hctx & REWRITE_STATE_FINISHED)) return HANDLER_GO_ON;", ["C20"]),
  "rewrite-loop-limit": ("src/mod_rewrite.c", "		if (((++*hctx) & 0x1FF) > 100) {", "		if (((++*hctx) & 0x1FF) > 300) {", ["C20"]),
+ "reluri-cr-unescaped": ("src/buffer.c", "\t1, 1, 1, 1, 1, 1, 1, 1, 1, 1, 1, 1, 1, 1, 1, 1,  /*  00 -  0F control chars */\n\t1, 1, 1, 1, 1, 1, 1, 1, 1, 1, 1, 1, 1, 1, 1, 1,  /*  10 -  1F */\n\t1, 0, 1, 1, 1, 1, 1, 1, 0, 0, 0, 1, 1, 0, 0, 0,  /*  20 -  2F space \" # $ % & ' + , */",
+                         "\t1, 1, 1, 1, 1, 1, 1, 1, 1, 1, 1, 1, 1, 0, 1, 1,  /*  00 -  0F control chars */\n\t1, 1, 1, 1, 1, 1, 1, 1, 1, 1, 1, 1, 1, 1, 1, 1,  /*  10 -  1F */\n\t1, 0, 1, 1, 1, 1, 1, 1, 0, 0, 0, 1, 1, 0, 0, 0,  /*  20 -  2F space \" # $ % & ' + , */", ["C04"]),
  "else-link": ("src/configparser.y", "    C->prev = B;\n    B->next = C;\n    A = C;", "    C->prev = B;\n    A = C;", ["C14"]),
 }
 
